@@ -92,11 +92,15 @@ TxRequired == {5}
 GHeaderRequired == {6, 7}
 
 TxOk(p) == TxRequired \subseteq p
-ParseRef(kind, present, hpresent, txs) ==
+(* a header can only be built when both of its time fields are there and decode
+   (tv: what the time fields hold: "valid" | "empty" | "garbage") *)
+HeaderOk(hp, tv) == {4, 7} \subseteq hp /\ tv = "valid"
+ParseRef(kind, present, hpresent, txs, tv) ==
   CASE kind = "tx" -> IF TxOk(present) THEN "object" ELSE "error"
     [] kind = "txs" -> IF \A i \in 1..Len(txs) : TxOk(txs[i]) THEN "object" ELSE "error"
-    [] kind = "header" -> "object"
-    [] kind = "block" -> IF 1 \in present /\ \A i \in 1..Len(txs) : TxOk(txs[i]) THEN "object" ELSE "error"
+    [] kind = "header" -> IF HeaderOk(present, tv) THEN "object" ELSE "error"
+    [] kind = "block" -> IF 1 \in present /\ HeaderOk(hpresent, tv) /\ \A i \in 1..Len(txs) : TxOk(txs[i])
+                         THEN "object" ELSE "error"
     [] kind = "group" -> IF 1 \in present /\ GHeaderRequired \subseteq hpresent THEN "object" ELSE "error"
 
 (* ------------------------------------------- concrete level (projections) *)
